@@ -466,6 +466,44 @@ fn c05_constants(sink: &Sink, rep: &mut Report) {
             }
         }
     }
+    // two-component differences: a change of the rights set, a change of the ep target (incl.
+    // to / from none) and a single piece appearing / disappearing must never cancel each other
+    {
+        use std::collections::HashMap;
+        let rights: Vec<(String, u64)> = {
+            let mut v = vec![("rights 1111".to_string(), 0u64)];
+            v.extend(vals.iter().filter(|(n, _)| n.starts_with("rights set")).cloned());
+            v
+        };
+        let eps: Vec<(String, u64)> = {
+            let mut v = vec![("no ep target".to_string(), 0u64)];
+            v.extend(vals.iter().filter(|(n, _)| n.starts_with("ep target")).cloned());
+            v
+        };
+        let mut dr: HashMap<u64, String> = HashMap::new();
+        for i in 0..rights.len() {
+            for j in i + 1..rights.len() {
+                dr.insert(rights[i].1 ^ rights[j].1, format!("{} <-> {}", rights[i].0, rights[j].0));
+            }
+        }
+        let mut cross = 0u64;
+        for i in 0..eps.len() {
+            for j in i + 1..eps.len() {
+                cross += 1;
+                let d = eps[i].1 ^ eps[j].1;
+                if let Some(r) = dr.get(&d) {
+                    sink.push(Violation { prop: "C05".into(), class: "rights-change-cancels-ep-change".into(), seed: format!("{} / {} <-> {}", r, eps[i].0, eps[j].0), path: vec![], detail: format!("two positions that differ in castling rights ({}) and in the en-passant target ({} <-> {}) have the same key (both differences contribute {:#018x})", r, eps[i].0, eps[j].0, d), extra: json!({"kind": "c05-const"}) });
+                }
+            }
+        }
+        for (n, v) in vals.iter().filter(|(n, _)| n.starts_with("piece")) {
+            cross += 1;
+            if let Some(r) = dr.get(v) {
+                sink.push(Violation { prop: "C05".into(), class: "rights-change-cancels-piece".into(), seed: format!("{} / {}", r, n), path: vec![], detail: "a rights change and a piece appearing contribute the same value".into(), extra: json!({"kind": "c05-const"}) });
+            }
+        }
+        rep.add("two_component_differences_compared", cross * dr.len() as u64);
+    }
     let mut dg = 0xcbf29ce484222325u64;
     for (_, v) in &vals {
         dg = (dg ^ v).wrapping_mul(0x100000001b3);
@@ -682,6 +720,29 @@ fn twins(p: &Pos) -> Vec<Pos> {
         let mut t = p.clone();
         t.ep = None;
         out.push(t);
+        // positions differing in BOTH components: every subset of the rights combined with every
+        // other consistent en-passant target on the same rank (and with none)
+        let rank = rank_of(p.ep.unwrap());
+        let mut eps: Vec<Option<Sq>> = vec![None];
+        for f in 0..8i8 {
+            eps.push(mk_sq(f, rank));
+        }
+        for r in 0..16u8 {
+            if r & !p.castle != 0 {
+                continue;
+            }
+            for e in eps.iter() {
+                if r == p.castle && (*e == p.ep || e.is_none()) {
+                    continue;
+                }
+                let mut t = p.clone();
+                t.castle = r;
+                t.ep = *e;
+                if t.is_consistent() {
+                    out.push(t);
+                }
+            }
+        }
     }
     if p.castle != 0 {
         let mut t = p.clone();
